@@ -87,6 +87,7 @@ pub fn gen_xz(rng: &mut Rng, p: &XzGenParams) -> (XzSpec, String) {
         0 => 0,
         1 | 2 | 3 => 1,
         4 | 5 => 2.min(p.max_blocks),
+        _ if p.max_blocks > 4 => rng.range(4, p.max_blocks as u64) as usize,
         _ => rng.range(0, p.max_blocks as u64) as usize,
     };
     let mut blocks = Vec::new();
